@@ -332,6 +332,7 @@ class DbRun:
     def run(self) -> "DbRun":
         via = self.case["via"]
         ops = self.case["ops"]
+        flags = scope_flags(self.case)
         if via == "store_listener":
             self.db.add_store_listener(lambda x: self._export("a"))
         elif via == "iter_listener":
@@ -355,7 +356,7 @@ class DbRun:
                 else:
                     self._export(op[1])
                     self._refresh(i)
-                self.lines.append(f"db={canon_db(self.db)} file={self.file_s} read={self.read_s}")
+                self.lines.append(f"in={int(flags[i])} db={canon_db(self.db)} file={self.file_s} read={self.read_s}")
             except Exception as e:  # noqa: BLE001
                 self.error = common.exc_class(e) + ": " + repr(e)[:160]
                 self.lines.append("E")
@@ -530,22 +531,32 @@ def fix_listener_ops(case):
     return c
 
 
-def in_scope_db(case) -> bool:
-    """No output already present in the file is overwritten with a different value."""
+def scope_flags(case) -> list[bool]:
+    """Per operation: is it inside the property's quantifier (harness bookkeeping, independent of
+    the model's `inScopeB`)? A store must not change an output already present in the file."""
     stored: dict[tuple, dict] = {}
     exported: dict[tuple, set] = {}
+    flags = []
     for op in case["ops"]:
         if op[0] == "store":
             key = (op[1]["int"], tuple(Fraction(t) for t in op[1]["xs"]))
             cur = stored.setdefault(key, {})
+            ok = True
             for n, v in op[2].items():
                 if n in exported.get(key, set()) and val_tok(cur[n]) != val_tok(v):
-                    return False
+                    ok = False
+            flags.append(ok)
             cur.update(op[2])
         else:
+            flags.append(True)
             for key, cur in stored.items():
                 exported[key] = set(cur)
-    return True
+    return flags
+
+
+def in_scope_db(case) -> bool:
+    """No output already present in the file is overwritten with a different value."""
+    return all(scope_flags(case))
 
 
 def shrink_db(case, key: str):
@@ -944,6 +955,321 @@ def check_ds_cases(res: Result, cases) -> None:
                                  "correspondence": "Driver/C11.lean `ds`"})
 
 
+# =========================================================================== optimization-problem cases
+# case = {"kind": "pb", "node": str, "append": bool, "minimize": bool, "dim": int, "two_vars": bool,
+#         "cstr": [{"name", "type": "eq"|"ineq", "value": rat, "positive": bool, "k": int}], "obs": [names],
+#         "run": None | {"algo": str, "max_iter": int}, "diff": str}
+
+PB_CSTR_NAMES = ["g", "c_1", "a", "zz", "h10", "h2", "B", "cstr"]
+
+
+def gen_pb_case(rng) -> dict[str, Any]:
+    n_c = rng.pick([0, 1, 2, 2, 3, 4])
+    names = rng.sample(PB_CSTR_NAMES, n_c)
+    cstr = []
+    for k, n in enumerate(names):
+        cstr.append({"name": n, "type": rng.pick(["eq", "ineq", "ineq"]), "value": rat(rng.pick([Fraction(0), Fraction(1, 2), Fraction(-1, 4)])),
+                     "positive": rng.chance(0.3), "k": k})
+    return {
+        "kind": "pb",
+        "node": rng.pick(["", "", "node", "a/b"]),
+        "append": rng.chance(0.3),
+        "minimize": rng.chance(0.7),
+        "dim": rng.pick([1, 2, 3]),
+        "two_vars": rng.chance(0.5),
+        "cstr": cstr,
+        "obs": rng.sample(["obs", "o_2", "Aa"], rng.pick([0, 0, 1, 2])),
+        "run": None if rng.chance(0.25) else {"algo": rng.pick(["SLSQP", "SLSQP", "PYDOE_FULLFACT", "L-BFGS-B"]), "max_iter": rng.randint(1, 7)},
+        "diff": rng.pick(["user", "user", "finite_differences"]),
+    }
+
+
+def build_problem(case):
+    from gemseo.algos.design_space import DesignSpace
+    from gemseo.algos.optimization_problem import OptimizationProblem
+    from gemseo.core.mdo_functions.mdo_function import MDOFunction
+
+    ds = DesignSpace()
+    ds.add_variable("x", size=case["dim"], lower_bound=-2.0, upper_bound=2.0, value=np.full(case["dim"], 0.5))
+    if case["two_vars"]:
+        ds.add_variable("y_long", size=1, lower_bound=-1.0, upper_bound=3.0, value=0.25)
+    pb = OptimizationProblem(ds)
+    pb.differentiation_method = case["diff"]
+    names = list(ds.variable_names)
+    pb.objective = MDOFunction(lambda x: float(np.sum((x - 0.25) ** 2)), "f", jac=lambda x: 2 * (x - 0.25),
+                               expr="sum((x-0.25)**2)", input_names=names, dim=1)
+    for c in case["cstr"]:
+        k = c["k"] % ds.dimension
+        fn = MDOFunction(lambda x, k=k: np.array([x[k] - 0.125 * k]), c["name"],
+                         jac=lambda x, k=k: np.eye(1, len(x), k), expr=f"x[{k}]-{0.125 * k}", input_names=names, dim=1)
+        pb.add_constraint(fn, value=float(Fraction(c["value"])), positive=c["positive"],
+                          constraint_type=MDOFunction.ConstraintType.EQ if c["type"] == "eq" else MDOFunction.ConstraintType.INEQ)
+    for o in case["obs"]:
+        pb.add_observable(MDOFunction(lambda x: np.array([2.0 * x[0]]), o, expr="2*x[0]", input_names=names, dim=1))
+    if not case["minimize"]:
+        pb.minimize_objective = False
+    return pb
+
+
+def _plain(v):
+    if isinstance(v, np.ndarray):
+        return ["nd", list(v.shape), [repr(float(t)) for t in np.real(v).astype(float).ravel().tolist()]]
+    if isinstance(v, (np.floating, float)):
+        return repr(float(v))
+    if isinstance(v, (np.integer, int)) and not isinstance(v, bool):
+        return int(v)
+    if isinstance(v, (np.bool_, bool)):
+        return bool(v)
+    if isinstance(v, dict):
+        return {str(k): _plain(w) for k, w in v.items()}
+    if isinstance(v, (list, tuple)):
+        return [_plain(w) for w in v]
+    if isinstance(v, bytes):
+        return v.decode()
+    return None if v is None else str(v)
+
+
+def func_desc(f) -> dict[str, Any]:
+    return {k: _plain(getattr(f, k, None)) for k in ("name", "f_type", "expr", "input_names", "dim", "special_repr", "output_names")}
+
+
+SOLUTION_FIELDS = ("x_0", "x_0_as_dict", "x_opt", "x_opt_as_dict", "f_opt", "objective_name", "status", "optimizer_name",
+                   "message", "n_obj_call", "n_grad_call", "n_constr_call", "is_feasible", "optimum_index",
+                   "constraint_values", "constraints_grad")
+
+
+def _norm_sol(field: str, v):
+    """`constraint_values`/`constraints_grad`: a mapping without any value carries the same
+    information as None (None entries are not written to the file)."""
+    if field in ("constraint_values", "constraints_grad"):
+        if isinstance(v, dict):
+            v = {k: w for k, w in v.items() if w is not None}
+        return v or None
+    return v
+
+
+def pb_desc(pb) -> dict[str, Any]:
+    sol = pb.solution
+    return {
+        "objective": func_desc(pb.objective),
+        "constraints": [func_desc(c) for c in pb.constraints],
+        "observables": [func_desc(c) for c in pb.observables],
+        "minimize_objective": bool(pb.minimize_objective),
+        "solution": None if sol is None else {k: _norm_sol(k, _plain(getattr(sol, k, None))) for k in SOLUTION_FIELDS},
+        "database": canon_db(pb.database),
+        "design_space": canon_ds(pb.design_space),
+        "extra": {"tolerances": [repr(pb.tolerances.equality), repr(pb.tolerances.inequality)],
+                  "differentiation_method": str(pb.differentiation_method)},
+    }
+
+
+def pb_observe(case) -> dict[str, Any]:
+    from gemseo import execute_algo
+    from gemseo.algos.optimization_problem import OptimizationProblem
+
+    d = fresh_dir()
+    obs: dict[str, Any] = {}
+    try:
+        pb = build_problem(case)
+        if case["run"]:
+            algo = case["run"]["algo"]
+            try:
+                if algo == "PYDOE_FULLFACT":
+                    execute_algo(pb, algo_name=algo, algo_type="doe", n_samples=case["run"]["max_iter"] + 1)
+                else:
+                    execute_algo(pb, algo_name=algo, max_iter=case["run"]["max_iter"])
+            except Exception as e:  # noqa: BLE001
+                obs["run_exc"] = common.exc_class(e)
+        p = os.path.join(d, "pb.h5")
+        try:
+            pb.to_hdf(p, append=case["append"], hdf_node_path=case["node"])
+            obs["orig"] = pb_desc(pb)
+            pb2 = OptimizationProblem.from_hdf(p, hdf_node_path=case["node"])
+            obs["back"] = pb_desc(pb2)
+        except Exception as e:  # noqa: BLE001
+            obs["exc"] = common.exc_class(e) + ": " + repr(e)[:160]
+    finally:
+        shutil.rmtree(d, ignore_errors=True)
+    return obs
+
+
+def pb_oracle(case, obs) -> list[tuple[str, str]]:
+    bad = []
+    if "exc" in obs:
+        return [("pb-roundtrip-raises", f"problem to_hdf/from_hdf raised {obs['exc']}")]
+    a, b = obs["orig"], obs["back"]
+    if a["objective"] != b["objective"]:
+        bad.append(("pb-objective-differs", f"objective description {b['objective']} instead of {a['objective']}"))
+    for grp in ("constraints", "observables"):
+        da = {f["name"]: f for f in a[grp]}
+        dbb = {f["name"]: f for f in b[grp]}
+        if da != dbb:
+            bad.append((f"pb-{grp}-differ", f"{grp} descriptions differ: {sorted(dbb)} vs {sorted(da)}"))
+        elif [f["name"] for f in a[grp]] != [f["name"] for f in b[grp]]:
+            bad.append((f"pb-{grp}-order", f"{grp} reloaded in order {[f['name'] for f in b[grp]]} instead of {[f['name'] for f in a[grp]]}"))
+    if a["minimize_objective"] != b["minimize_objective"]:
+        bad.append(("pb-minimize-differs", "minimize_objective flag differs"))
+    if (a["solution"] is None) != (b["solution"] is None):
+        bad.append(("pb-solution-presence", "solution present on one side only"))
+    elif a["solution"] is not None:
+        for k in SOLUTION_FIELDS:
+            if a["solution"][k] != b["solution"][k]:
+                bad.append(("pb-solution-" + k, f"solution field {k}: {b['solution'][k]!r} instead of {a['solution'][k]!r}"))
+                break
+    if a["database"] != b["database"]:
+        bad.append(("pb-database-differs", "the database of the reloaded problem differs"))
+    if a["design_space"] != b["design_space"]:
+        bad.append(("pb-design-space-differs", f"design space {b['design_space']} instead of {a['design_space']}"))
+    return bad
+
+
+def check_pb_cases(res: Result, cases) -> None:
+    for case in cases:
+        res.evaluations += 1
+        obs = pb_observe(case)
+        res.count("pb:node=" + ("root" if not case["node"] else "nested"))
+        res.count("pb:run=" + (case["run"]["algo"] if case["run"] else "none"))
+        res.count(f"pb:ncstr={len(case['cstr'])}")
+        if "orig" in obs and obs["orig"]["solution"] is not None:
+            res.count("pb:with-solution")
+        if case["run"] and len(case["cstr"]) >= 1:
+            res.nontrivial("pb:" + json.dumps(case, sort_keys=True))
+        res.sample({"case": "pb", "spec": case})
+        if "orig" in obs and "back" in obs and obs["orig"]["extra"] != obs["back"]["extra"]:
+            res.count("pb:info-extra-attributes-differ(tolerances/differentiation; not in the property statement)")
+        for key, msg in pb_oracle(case, obs):
+            res.violate("oracle", key, msg, {"case": shrink_pb(case, key)})
+
+
+def shrink_pb(case, key):
+    def fails(c):
+        try:
+            return any(k == key for k, _ in pb_oracle(c, pb_observe(c)))
+        except Exception:  # noqa: BLE001
+            return False
+
+    cur = case
+    for k, v in (("obs", []), ("two_vars", False), ("dim", 1), ("append", False), ("minimize", True), ("diff", "user")):
+        if cur[k] != v and fails({**cur, k: v}):
+            cur = {**cur, k: v}
+    if len(cur["cstr"]) > 1:
+        cur = {**cur, "cstr": common.shrink_list(cur["cstr"], lambda cs: fails({**cur, "cstr": cs}), budget=12)}
+    if cur["run"] and fails({**cur, "run": None}):
+        cur = {**cur, "run": None}
+    elif cur["run"] and fails({**cur, "run": {**cur["run"], "max_iter": 1}}):
+        cur = {**cur, "run": {**cur["run"], "max_iter": 1}}
+    return cur
+
+
+# =========================================================================== HDF5 cache cases
+# case = {"kind": "cache", "nodes": [str], "tol": rat, "ops": [["out"|"jac", node_i, x, y, val] | ["reopen", node_i]]}
+
+
+def gen_cache_case(rng) -> dict[str, Any]:
+    nodes = rng.pick([["node"], ["a/b"], ["n1", "n2"], ["n1", "g/n2"]])
+    ops = []
+    for _ in range(rng.pick([1, 2, 4, 6, 9, 12])):
+        ni = rng.randrange(len(nodes))
+        r = rng.random()
+        x = rng.randint(0, 3)
+        y = rng.randint(0, 1)
+        if r < 0.5:
+            ops.append(["out", ni, x, y, rng.randint(-8, 8)])
+        elif r < 0.85:
+            ops.append(["jac", ni, x, y, rng.randint(-8, 8)])
+        else:
+            ops.append(["reopen", ni])
+    return {"kind": "cache", "nodes": nodes, "ops": ops, "names": rng.pick([["x", "y"], ["x_long", "B"], ["b", "a"]])}
+
+
+def _cache_entries(cache) -> list:
+    out = []
+    if not len(cache):
+        return out
+    for e in cache.get_all_entries():
+        jac = e.jacobian or {}
+        out.append(
+            (
+                tuple(sorted((k, _plain(v).__repr__()) for k, v in e.inputs.items())),
+                tuple(sorted((k, _plain(v).__repr__()) for k, v in (e.outputs or {}).items())),
+                tuple(sorted((o, i, _plain(v).__repr__()) for o, d in jac.items() for i, v in d.items())),
+            )
+        )
+    return out
+
+
+def cache_observe(case) -> dict[str, Any]:
+    from gemseo.caches.hdf5_cache import HDF5Cache
+
+    d = fresh_dir()
+    p = os.path.join(d, "cache.h5")
+    nx, ny = case["names"]
+    obs: dict[str, Any] = {"bad": []}
+    try:
+        caches = [HDF5Cache(hdf_file_path=p, hdf_node_path=n) for n in case["nodes"]]
+        # plain twin: per node, ordered entries {inputs -> (outputs, jac)}; first write of a group wins
+        twin: list[dict] = [dict() for _ in case["nodes"]]
+        for k, op in enumerate(case["ops"]):
+            if op[0] == "reopen":
+                ni = op[1]
+                before = _cache_entries(caches[ni])
+                re = HDF5Cache(hdf_file_path=p, hdf_node_path=case["nodes"][ni])
+                after = _cache_entries(re)
+                if before != after or len(re) != len(caches[ni]):
+                    obs["bad"].append(("cache-reopen-differs", f"after op {k} the cache re-instantiated on node {case['nodes'][ni]!r} lists different entries"))
+                caches[ni] = re
+                continue
+            _, ni, x, y, val = op
+            inp = {nx: np.array([float(x), 1.0]), ny: np.array([y])}
+            key = (x, y)
+            ent = twin[ni].setdefault(key, {"out": None, "jac": None})
+            if op[0] == "out":
+                caches[ni].cache_outputs(inp, {"o": np.array([val / 4]), "m": np.array([[1.0, val], [0.5, 2.0]])})
+                if ent["out"] is None:
+                    ent["out"] = val
+            else:
+                caches[ni].cache_jacobian(inp, {"o": {nx: np.array([[val / 2, 1.0]])}})
+                if ent["jac"] is None:
+                    ent["jac"] = val
+        for ni, node in enumerate(case["nodes"]):
+            re = HDF5Cache(hdf_file_path=p, hdf_node_path=node)
+            live = _cache_entries(caches[ni])
+            back = _cache_entries(re)
+            if live != back or len(re) != len(caches[ni]):
+                obs["bad"].append(("cache-reopen-differs", f"the cache re-instantiated on node {node!r} lists different entries"))
+            # against the twin
+            exp = []
+            for (x, y), ent in twin[ni].items():
+                inputs = tuple(sorted([(nx, _plain(np.array([float(x), 1.0])).__repr__()), (ny, _plain(np.array([y])).__repr__())]))
+                outs = () if ent["out"] is None else tuple(sorted([
+                    ("o", _plain(np.array([ent["out"] / 4])).__repr__()),
+                    ("m", _plain(np.array([[1.0, ent["out"]], [0.5, 2.0]])).__repr__())]))
+                jac = () if ent["jac"] is None else (("o", nx, _plain(np.array([[ent["jac"] / 2, 1.0]])).__repr__()),)
+                exp.append((inputs, outs, jac))
+            if back != exp:
+                obs["bad"].append(("cache-reopen-content", f"node {node!r}: reopened entries differ from what was cached"))
+    except Exception as e:  # noqa: BLE001
+        obs["bad"].append(("cache-raises", "HDF5Cache raised " + common.exc_class(e) + ": " + repr(e)[:120]))
+    finally:
+        shutil.rmtree(d, ignore_errors=True)
+    return obs
+
+
+def check_cache_cases(res: Result, cases) -> None:
+    for case in cases:
+        res.evaluations += 1
+        obs = cache_observe(case)
+        res.count(f"cache:nodes={len(case['nodes'])}")
+        res.count(f"cache:ops={min(len(case['ops']), 12)}")
+        if len(case["ops"]) >= 4:
+            res.nontrivial("cache:" + json.dumps(case, sort_keys=True))
+        for key, msg in obs["bad"]:
+            def fails(ops, key=key):
+                return any(k == key for k, _ in cache_observe({**case, "ops": ops})["bad"])
+            small = {**case, "ops": common.shrink_list(case["ops"], fails, budget=40)}
+            res.violate("oracle", key, msg, {"case": small})
+
+
 # =========================================================================== run / replay
 
 
@@ -974,6 +1300,8 @@ def run(ctx) -> Result:
     db_corpus = [c for c in corpus if c["kind"] == "db"]
     check_db_cases(res, [c for c in db_corpus if in_scope_db(c)], True)
     check_ds_cases(res, [c for c in corpus if c["kind"] == "ds"])
+    check_pb_cases(res, [c for c in corpus if c["kind"] == "pb"])
+    check_cache_cases(res, [c for c in corpus if c["kind"] == "cache"])
     res.count("corpus", len(corpus))
     n_db = 3000 if ctx.thorough else 260
     n_ds = 2000 if ctx.thorough else 200
@@ -987,6 +1315,8 @@ def run(ctx) -> Result:
     check_db_cases(res, [c for c in probes if not in_scope_db(c)], False)
     check_ds_cases(res, [gen_ds_case(rng, exact=True) for _ in range(n_ds)])
     check_ds_cases(res, [gen_ds_case(rng, exact=False) for _ in range(n_ds // 4)])
+    check_pb_cases(res, [gen_pb_case(rng) for _ in range(400 if ctx.thorough else 60)])
+    check_cache_cases(res, [gen_cache_case(rng) for _ in range(400 if ctx.thorough else 60)])
     return res
 
 
@@ -1021,5 +1351,18 @@ def replay(path: str) -> int:
         for k, m in bad:
             print("ORACLE FAILS:", k, m)
         return 1 if bad else 0
+    if case["kind"] == "pb":
+        obs = pb_observe(case)
+        for part in ("orig", "back"):
+            print(part, ":", json.dumps(obs.get(part), indent=1, default=str)[:3000])
+        bad = pb_oracle(case, obs)
+        for k, m in bad:
+            print("ORACLE FAILS:", k, m)
+        return 1 if bad else 0
+    if case["kind"] == "cache":
+        obs = cache_observe(case)
+        for k, m in obs["bad"]:
+            print("ORACLE FAILS:", k, m)
+        return 1 if obs["bad"] else 0
     print("unknown case kind")
     return 1
